@@ -40,6 +40,10 @@ theorem C17_same_result_decode_marker_partial (bs : Option Nat) (ps : List Param
     rw [hs _ p hm]
     exact h
 
+/-- the class contains every description `C17_same_result_decode` covers (no DYNAMIC-ENDMARKER-FIELD at all) -/
+theorem C17_marker_subsumes (ps : List Param) (h : paramsMarkerFree ps = true) : paramsMarkerSafe ps = true :=
+  params_safe_of_free ps h
+
 /-! ### non-vacuity: an end-marker field with an 8-bit unsigned termination DOP (termination value 0xff) -/
 
 def mU8 : Dop := .simple (.std .uint32 none true 8 none false) .uint32 .identical
